@@ -348,7 +348,8 @@ def check_history(line, real, want):
             # ---- C02 repeated build runs nothing
             if "noop" in want and last_build is not None and not edits_since_build and rc == 0 and last_build[2] == 0 \
                     and t[1] == "ifchange" and set(ts) <= set(last_build[1]) and not any(s["always"] for s in tr.scripts.values()) \
-                    and not last_any_failed:
+                    and not last_any_failed and not tol_fail:
+                # (tol_fail: a script that shrugs off a dependency that cannot be built is out of date by C05 -- failures are retried)
                 counted["noop_checked"] += 1
                 if trace:
                     fails.append({"oracle": "repeated redo-ifchange with no change ran scripts", "step": i, "cmd": " ".join(t), "trace": trace})
